@@ -2074,6 +2074,35 @@ func (e *Exec) call0(st *State, c *ssa.Call) string {
 	if e.contract != nil {
 		for i, cl := range e.contract.AtCall[key] {
 			cc := e.newCtx(st)
+			// the callee's parameter names stand for the arguments of this call (they shadow the caller's names)
+			var pnames []string
+			var ptypes []types.Type
+			if fc, ok := e.cs.Funcs[key]; ok && e.cs != nil && len(fc.Params) > 0 {
+				pnames = fc.Params
+			} else if f := c.Call.StaticCallee(); f != nil {
+				for _, p := range f.Params {
+					pnames = append(pnames, p.Name())
+				}
+			}
+			if sig := c.Call.Signature(); sig != nil {
+				if c.Call.IsInvoke() || sig.Recv() != nil {
+					if c.Call.IsInvoke() {
+						ptypes = append(ptypes, c.Call.Value.Type())
+					} else if sig.Recv() != nil {
+						ptypes = append(ptypes, sig.Recv().Type())
+					}
+				}
+				for k := 0; k < sig.Params().Len(); k++ {
+					ptypes = append(ptypes, sig.Params().At(k).Type())
+				}
+			}
+			if len(pnames) == len(args) && len(ptypes) == len(args) {
+				for k, n := range pnames {
+					if n != "" && n != "_" {
+						cc.vars[n] = cc.val(args[k], ptypes[k])
+					}
+				}
+			}
 			if t, ok := e.safeCompile(cc, cl, "atcall "+key); ok {
 				e.obligeCl(st, fmt.Sprintf("at.%s.%d", shortName(key), i+1), t, &e.contract.AtCall[key][i])
 			}
